@@ -395,11 +395,11 @@ func (rt *runtime) convertCallParameter(v Value, t reflect.Type) (reflect.Value,
 				return reflect.Zero(t), fmt.Errorf("can't convert to %s: %w", t, err)
 			}
 
-			if vv.CanAddr() {
+			if vv.CanAddr() && vv.Type() == t.Elem() {
 				return vv.Addr(), nil
 			}
 
-			pv := reflect.New(vv.Type())
+			pv := reflect.New(t.Elem())
 			pv.Elem().Set(vv)
 			return pv, nil
 		}
